@@ -36,3 +36,14 @@ Theorem parse_selector_rt_ws :
 Proof. exact CssRoundTrip.parse_selector_rt_ws. Qed.
 Print Assumptions parse_selector_rt_ws.
 
+
+(* ---------- with optional white space inside :nth-child(An + B) (after fix a437d2a) ---------- *)
+From H2T Require Import Base Tagged Wrap Css Dom CssParse Proofs.CssTotal Proofs.CssRoundTrip.
+Theorem parse_selector_rt_nthws :
+  forall (q : nws) (s : selector) (rest : text),
+       nws_ok q ->
+       wf_selector s = true ->
+       (pseudo_el s = None -> nf selcont rest) -> parse_selector (print_selector_q q s ++ rest) = POk s rest.
+Proof. exact CssRoundTrip.parse_selector_rt_nthws. Qed.
+Print Assumptions parse_selector_rt_nthws.
+
